@@ -1,5 +1,5 @@
 //! C24 / C23: the zone-file parser and the std parsers it relies on.
-//! Cases: `zf <mode> <hexfile>` (mode `w` = Cursor, `b<k>` = a Read that returns at most k octets
+//! Cases: `zf <mode> <hexfile>`, `zfx <mode> <hexfile> <hex of the expected output>` (C23), (mode `w` = Cursor, `b<k>` = a Read that returns at most k octets
 //! per call), `u8|u16|u32|ip4|ip6|class|type|utf8 <hexstring>`.
 use std::io::{self, Cursor, Read};
 use std::net::{Ipv4Addr, Ipv6Addr};
@@ -135,7 +135,7 @@ fn main() {
     run_lines(|f| {
         let op = f[0];
         match op {
-            "zf" => run_zf(f[1], unhex(f[2])),
+            "zf" | "zfx" => run_zf(f[1], unhex(f[2])),
             "u8" => with_str(&unhex(f[1]), |s| match s.parse::<u8>() {
                 Ok(v) => format!("ok {v}"),
                 Err(e) => format!("err {}", int_err(e.kind())),
